@@ -6,4 +6,5 @@ open Jomini.Props.C03
 #print axioms C03_iter_sim
 #print axioms C03_fast_eq_reference
 #print axioms C03_delimited
+#print axioms C03_delimited_links
 #print axioms C03_faithful_partial
